@@ -73,7 +73,7 @@ def check_guards(ctx, root, rep):
         return
 
 
-def one_case(ctx, name, root, rs, n_keeps, rep_extra=None, history=None):
+def one_case(ctx, name, root, rs, n_keeps, rep_extra=None, history=None, keeps=None):
     if isinstance(root, (Sum, Product)):
         assign_ids(root)
     table, order, index, _ = S.export_net(root)
@@ -82,7 +82,9 @@ def one_case(ctx, name, root, rs, n_keeps, rep_extra=None, history=None):
     clt = has_clt(order)
     rep0 = dict(kind='c10', table=table_with_py(table, order), **(dict(history=history) if history else {})) if rep_extra is None else dict(kind='c10-learned', **rep_extra)
     subsets = [list(c) for r in range(1, len(scope) + 1) for c in itertools.combinations(scope, r)]
-    if len(subsets) > n_keeps:
+    if keeps is not None:
+        subsets = [list(kp) for kp in keeps]
+    elif len(subsets) > n_keeps:
         subsets = [subsets[i] for i in rs.permutation(len(subsets))[:n_keeps]]
     ctx.count('with-clt-leaves' if clt else 'table-leaves')
     first = True
@@ -175,6 +177,56 @@ def learned_cases(ctx, n):
         yield f"learned:{cfg['learner']}", root, rs, cfg
 
 
+def clt_subtree_cases(ctx):
+    """Chow-Liu leaves whose scope is not `0..n-1` in order (labelled as XPC / hand-built / loaded leaves are: any ids, any order) and
+    kept sets that drop WHOLE SUB-TREES of the leaf (root kept) — the one case in which the marginal of a tree is again a tree, next
+    to kept sets that cut through the tree"""
+    quick = ctx.tier == 'quick'
+    for k in range(14 if quick else 200):
+        rs = np.random.RandomState(np_seed(ctx.sub_rng('cltsub', k)))
+        n = int(rs.randint(3, 7))
+        pool = [int(v) for v in rs.permutation(n + 2 if k % 2 else 13)]
+        sc = pool[:n]
+        extra = pool[n]
+        leaves = [S.rand_clt(rs, list(sc)) for _ in range(1 if k % 3 == 0 else 2)]
+        if k % 4 == 3 and len(leaves) == 2:
+            # the same dependency tree, other tables (root rows equal, as every fitted / valid leaf has them)
+            t0 = [int(t) for t in leaves[0].tree]
+            r0 = t0.index(-1)
+            pr = rs.uniform(0.05, 0.95, (n, 2))
+            pr[r0, 1] = pr[r0, 0]
+            leaves[1] = BinaryCLT(list(sc), root=int(sc[r0]), tree=t0, params=np.log(np.stack([1 - pr, pr], axis=2)).tolist())
+        if len(leaves) == 1:
+            inner = leaves[0]
+        else:
+            w = rs.dirichlet(np.ones(len(leaves))).astype(np.float32)
+            inner = Sum(children=leaves, weights=(w / w.sum()).astype(np.float32))
+        root = assign_ids(Product(children=[inner, Bernoulli(extra, float(rs.uniform(0.2, 0.8)))]))
+        keeps = []
+        for lf in leaves[:2]:
+            pred = [int(t) for t in lf.tree]
+            dropped = set()
+            for _ in range(int(rs.randint(1, 3))):
+                cand = [i for i in range(n) if pred[i] != -1 and i not in dropped]
+                if not cand:
+                    break
+                top = cand[int(rs.randint(len(cand)))]
+                dropped.add(top)
+                grew = True
+                while grew:                              # with everything below it
+                    grew = False
+                    for i in range(n):
+                        if i not in dropped and pred[i] in dropped:
+                            dropped.add(i); grew = True
+            kept = [sc[i] for i in range(n) if i not in dropped]
+            keeps.append(kept + ([extra] if rs.rand() < 0.5 else []))
+        keeps.append([int(v) for v in rs.permutation(sc)[:int(rs.randint(1, n))]])
+        ctx.count('clt-leaves-with-whole-subtrees-dropped')
+        one_case(ctx, f'cltsub{k}', root, rs, 0, keeps=keeps)
+        if ctx.n_new(with_input_only=True) >= 3:
+            return
+
+
 def wide_clt_cases(ctx):
     """a Chow-Liu leaf over 130..200 variables: the evidence below a marginalised variable has log-probability around -100, far below
     what single precision can hold in the linear domain. Structural marginalisation and marginal inference must still agree (and
@@ -249,6 +301,9 @@ def run(ctx):
         one_case(ctx, name, root, np.random.RandomState(np_seed(ctx.sub_rng('rare', name))), 3)
         if ctx.n_new(with_input_only=True) >= 3:
             return
+    clt_subtree_cases(ctx)
+    if ctx.n_new(with_input_only=True) >= 3:
+        return
     if ctx.n_new(with_input_only=True) == 0:
         wide_clt_cases(ctx)
     for name, root, rs, cfg in learned_cases(ctx, 8 if quick else 120):
